@@ -1,6 +1,7 @@
 package rules
 
 import (
+	"go/types"
 	"strings"
 
 	"golang.org/x/tools/go/ssa"
@@ -97,4 +98,121 @@ func mentionsDecodeConfig(v ssa.Value, seen map[ssa.Value]bool, d int) bool {
 		}
 	}
 	return false
+}
+
+// ---- CACHESAFE ------------------------------------------------------------------------
+//
+// "One cache can be shared by any number of trees" — and those trees may be used from different goroutines. The cache
+// NewNodeCache hands out therefore has to be safe for concurrent use: hashicorp's top-level lru package (Cache,
+// ARCCache, TwoQueueCache) locks internally; its simplelru sub-package, a bare map, or a hand-written adapter does not.
+
+func init() {
+	Register(&Rule{ID: "CACHESAFE", Props: []string{"C11"}, Min: 1,
+		Doc: "every value a NodeCache constructor of package mast returns is built by a constructor of github.com/hashicorp/golang-lru itself (whose caches lock internally; not its simplelru sub-package), " +
+			"or is a type of the repository whose Add, Contains and Get each take a sync mutex of the receiver before anything else.",
+		Run: runCACHESAFE})
+}
+
+func runCACHESAFE(c *Ctx) {
+	P := c.P
+	n := 0
+	for _, fn := range P.Funcs {
+		if fn.Pkg == nil || fn.Pkg.Pkg.Path() != ir.MastPath || fn.Parent() != nil || fn.Signature.Recv() != nil {
+			continue
+		}
+		res := fn.Signature.Results()
+		if res.Len() != 1 {
+			continue
+		}
+		named, ok := types.Unalias(res.At(0).Type()).(*types.Named)
+		if !ok || named.Obj().Name() != "NodeCache" {
+			continue
+		}
+		for _, r := range ir.Returns(fn) {
+			n++
+			pos := P.InstrPos(r)
+			what := "cache returned by " + ir.FuncName(fn)
+			v := ir.ResolveCell(r.Results[0])
+			for i := 0; i < 4; i++ {
+				switch x := v.(type) {
+				case *ssa.MakeInterface:
+					v = ir.ResolveCell(x.X)
+				case *ssa.ChangeInterface:
+					v = ir.ResolveCell(x.X)
+				case *ssa.Extract:
+					v = x.Tuple
+				}
+			}
+			if call, ok := v.(*ssa.Call); ok {
+				if sc := ir.Callee(call.Call); sc != nil && sc.Pkg != nil {
+					switch path := sc.Pkg.Pkg.Path(); {
+					case path == "github.com/hashicorp/golang-lru":
+						c.OK(pos, what, "built by "+sc.String()+": hashicorp's top-level caches lock internally", false)
+						continue
+					case strings.HasPrefix(path, "github.com/hashicorp/golang-lru/"):
+						c.Violation(fn, pos, "shared node cache is not safe for concurrent use",
+							"the cache is built by "+sc.String()+", which does no locking (the sub-packages of golang-lru are the unsynchronised building blocks): trees that share the cache from different goroutines race on its map and lists — concurrent map writes crash the process, or a lookup observes a half-updated entry")
+						continue
+					}
+				}
+			}
+			// a type of the repository: its three methods lock first
+			t := v.Type()
+			if pt, ok := t.Underlying().(*types.Pointer); ok {
+				t = pt.Elem()
+			}
+			nt, isNamed := types.Unalias(t).(*types.Named)
+			if !isNamed || nt.Obj().Pkg() == nil || !strings.HasPrefix(nt.Obj().Pkg().Path(), ir.MastPath) {
+				c.Undecided(fn, pos, "node cache of unknown construction", "the returned cache is neither built by golang-lru nor a type of the repository: whether it locks cannot be decided")
+				continue
+			}
+			bad := ""
+			for _, mn := range []string{"Add", "Contains", "Get"} {
+				var m *ssa.Function
+				for _, f := range P.Funcs {
+					if f.Name() == mn && f.Signature.Recv() != nil {
+						rt := f.Signature.Recv().Type()
+						if p, ok := rt.(*types.Pointer); ok {
+							rt = p.Elem()
+						}
+						if types.Identical(types.Unalias(rt), nt) {
+							m = f
+						}
+					}
+				}
+				if m == nil || len(m.Blocks) == 0 {
+					bad = mn + " is promoted from an embedded value or missing"
+					break
+				}
+				locked := false
+				for _, ins := range m.Blocks[0].Instrs {
+					if ci, ok := ins.(*ssa.Call); ok {
+						if _, isLock := syncCall(ci, "Mutex", "Lock"); isLock {
+							locked = true
+						}
+						if _, isLock := syncCall(ci, "RWMutex", "Lock"); isLock {
+							locked = true
+						}
+						if _, isLock := syncCall(ci, "RWMutex", "RLock"); isLock && mn != "Add" {
+							locked = true
+						}
+						break // the first call decides
+					}
+				}
+				if !locked {
+					bad = mn + " does not start by taking a mutex"
+					break
+				}
+			}
+			if bad == "" {
+				c.OK(pos, what, "a type of the repository whose Add, Contains and Get lock first", false)
+			} else {
+				c.Violation(fn, pos, "shared node cache is not safe for concurrent use",
+					"the cache is a "+nt.Obj().Name()+" of the repository and "+bad+": trees that share the cache from different goroutines race on its state")
+			}
+		}
+	}
+	if n == 0 {
+		c.AnchorMissing("a constructor of NodeCache in package mast")
+	}
 }
